@@ -22,9 +22,20 @@ BODY_FLOORS = {"frost_core": 480, "frost_rerandomized": 20, "frost_ed25519": 25,
                "frost_p256": 25, "frost_ristretto255": 25, "frost_secp256k1": 25, "frost_secp256k1_tr": 50}
 
 
+def list_files(repo):
+    r = subprocess.run(["git", "-C", repo, "ls-files", "-co", "--exclude-standard"], capture_output=True, text=True)
+    if r.returncode == 0 and os.path.isdir(os.path.join(repo, ".git")) or (r.returncode == 0 and repo == REPO):
+        return r.stdout.split("\n")
+    out = []
+    for root, dirs, files in os.walk(repo):
+        dirs[:] = [d for d in dirs if d not in ("target", ".git")]
+        for f in files:
+            out.append(os.path.relpath(os.path.join(root, f), repo))
+    return out
+
+
 def tree_hash(repo=REPO):
-    out = subprocess.run(["git", "-C", repo, "ls-files", "-co", "--exclude-standard"],
-                         capture_output=True, text=True, check=True).stdout.split("\n")
+    out = list_files(repo)
     h = hashlib.sha256()
     for rel in sorted(set(p for p in out if p)):
         if rel.startswith("target/"):
